@@ -381,13 +381,27 @@ Fixpoint exec (fuel : nat) (sk : sketch) (g cnt : Z) (st : sstate) (v : wv) {str
 
 Definition body_fuel : nat := 64.
 
+(* (38 thr) at the top level of the loop body:  if g > thr: continue  - parser/emitter turn a continue of the main loop into
+   "return;" inside loop(): the rest of the body is skipped in this pass (the polls at the head of loop() have already run).
+   Some b: the statement is such a continue, b = taken in this pass *)
+Definition pass_ends (g : Z) (s : wv) : option bool :=
+  match s with
+  | WL [WI 38; WI thr] => Some (g >? thr)
+  | _ => None
+  end.
+
 Fixpoint exec_body (sk : sketch) (g : Z) (st : sstate) (l : list wv) : sstate * list wv :=
   match l with
   | [] => (st, [])
   | s :: r =>
-      let '(s1, e1) := exec body_fuel sk g 0 st s in
-      let '(s2, e2) := exec_body sk g s1 r in
-      (s2, e1 ++ e2)
+      match pass_ends g s with
+      | Some true => (st, [])
+      | Some false => exec_body sk g st r
+      | None =>
+          let '(s1, e1) := exec body_fuel sk g 0 st s in
+          let '(s2, e2) := exec_body sk g s1 r in
+          (s2, e1 ++ e2)
+      end
   end.
 
 Definition run_pass (sk : sketch) (k : nat) (st : sstate) : sstate * list wv :=
